@@ -54,6 +54,10 @@ pub fn d_pool() -> Vec<String> {
         ":".into(),
         format!("{}1", "w".repeat(480)),
         format!("{}2", "w".repeat(480)),
+        // identifiers that are, or contain, a pool author's key (lists / records about somebody)
+        author(1),
+        format!("about:{}", author(2)),
+        author(0).to_uppercase(),
     ]
 }
 
@@ -284,6 +288,15 @@ pub enum DelTarget {
     EForeign(u16),
     /// NIP-09 `k` tag: the kind of the i-th earlier event (None: a fixed kind or garbage, by the second field)
     K(Option<u16>, u8),
+    /// a tag that is NOT a deletion target although it carries the id (or the address) of the i-th earlier event
+    /// written by the requester (any event if there is none): upper-case E / A (NIP-22 root references), q, P, ...
+    Decoy { name: u8, of: u16, by_addr: bool },
+    /// an `a` tag spelled from the kind, author and first d value of the i-th earlier event of the requester,
+    /// whatever its kind (a regular or ephemeral kind has no address: the tag names nothing)
+    AOfAny(u16),
+    /// an `e` tag with further elements after the id: relay hint, marker, and (NIP-10) a pubkey - the requester's
+    /// own or the target author's
+    ELong { of: u16, foreign: bool, claim_own: bool },
 }
 
 #[derive(Clone, Debug, Serialize, Deserialize)]
@@ -371,6 +384,9 @@ pub fn del_target() -> BoxedStrategy<DelTarget> {
         1 => Just(DelTarget::Other(vec![])),
         1 => Just(DelTarget::Other(vec!["e".into()])),
         2 => (prop::option::weighted(0.6, any::<u16>()), any::<u8>()).prop_map(|(i, x)| DelTarget::K(i, x)),
+        3 => (any::<u8>(), any::<u16>(), any::<bool>()).prop_map(|(name, of, by_addr)| DelTarget::Decoy { name, of, by_addr }),
+        2 => (any::<u16>(), any::<bool>(), any::<bool>()).prop_map(|(of, foreign, claim_own)| DelTarget::ELong { of, foreign, claim_own }),
+        3 => any::<u16>().prop_map(DelTarget::AOfAny),
     ]
     .boxed()
 }
@@ -748,7 +764,13 @@ impl World {
             tags: vec![],
             content: String::new(),
         };
-        let ev = m.to_owned_event().unwrap();
+        // if the key has submitted a request to vanish (kind 62) earlier in the history, that very event is handed
+        // over (a relay stores the request and then acts on it); otherwise a request that was never stored
+        let stored_req = self.events.iter().rposition(|e| e.kind == 62 && e.pubkey == author_hex);
+        let ev = match stored_req {
+            Some(i) => self.owned[i].clone(),
+            None => m.to_owned_event().unwrap(),
+        };
         let st = self.st();
         match guard("Store::vanish", || st.vanish(&ev)) {
             Ok(Ok(())) => Res::Ok(0),
@@ -879,6 +901,37 @@ impl World {
                         tags.insert(0, vec!["k".to_string(), v]);
                     } else {
                         tags.push(vec!["k".to_string(), v]);
+                    }
+                }
+                DelTarget::Decoy { name, of, by_addr } => {
+                    if n > 0 {
+                        let me = author(author_i);
+                        let own: Vec<&MEvent> = self.events.iter().filter(|e| e.pubkey == me).collect();
+                        let target = if own.is_empty() { &self.events[idx16(*of, n)] } else { own[idx16(*of, own.len())] };
+                        let names = ["E", "A", "q", "P", "Q", "i", "r", "ee", "E ", "aa"];
+                        let name = names[*name as usize % names.len()].to_string();
+                        match (by_addr, World::address_of(target)) {
+                            (true, Some((k, a, d))) => tags.push(vec![name, format!("{k}:{a}:{d}")]),
+                            _ => tags.push(vec![name, target.id.clone()]),
+                        }
+                    }
+                }
+                DelTarget::AOfAny(i) => {
+                    let me = author(author_i);
+                    let own: Vec<&MEvent> = self.events.iter().filter(|e| e.pubkey == me).collect();
+                    if !own.is_empty() {
+                        let t = own[idx16(*i, own.len())];
+                        let d = t.tags.iter().find(|x| x.len() >= 2 && x[0] == "d").map(|x| x[1].clone()).unwrap_or_default();
+                        tags.push(vec!["a".to_string(), format!("{}:{}:{}", t.kind, t.pubkey, d)]);
+                    }
+                }
+                DelTarget::ELong { of, foreign, claim_own } => {
+                    let me = author(author_i);
+                    let cands: Vec<&MEvent> = self.events.iter().filter(|e| (e.pubkey == me) != *foreign).collect();
+                    if !cands.is_empty() {
+                        let t = cands[idx16(*of, cands.len())];
+                        let claimed = if *claim_own { me.clone() } else { t.pubkey.clone() };
+                        tags.push(vec!["e".to_string(), t.id.clone(), "wss://relay.example".to_string(), "reply".to_string(), claimed]);
                     }
                 }
                 DelTarget::EOwn(i) | DelTarget::EForeign(i) => {
